@@ -209,7 +209,7 @@ class Verifier(ExprMixin, StmtMixin, CallMixin, LibMixin, SpecMixin):
         else:
             # once something in this function failed, later obligations get a short budget (they are often
             # consequences of the same defect and only cost time); verdicts stay sat/unsat/unknown
-            r = solve.prove(st.pc, goal, 2000 if self.degraded else self.timeout_ms, external=not self.degraded)
+            r = solve.prove(st.full_pc(), goal, 2000 if self.degraded else self.timeout_ms, external=not self.degraded)
             if r["verdict"] != "unsat":
                 self.degraded = True
             o.verdict, o.backend, o.ms = r["verdict"], r["backend"], r["ms"]
